@@ -395,7 +395,8 @@ def wv_shift_amount(rng, w):
 def gen_wv(seed, tier):
     rng = random.Random(seed + 1)
     main, err = [], []
-    corpus = ["wv udiv 8 200:100 1:10", "wv udiv 8 200:100 1:1", "wv udiv 8 250:5 1:3", "wv shl 8 3:5 7:7",
+    corpus = ["wv shl 64 5:9 0:0", "wv trunc 64 5:9 64", "wv shl 8 100:200 0:0", "wv trunc 8 100:200 8",   # wrapint-10
+              "wv udiv 8 200:100 1:10", "wv udiv 8 200:100 1:1", "wv udiv 8 250:5 1:3", "wv shl 8 3:5 7:7",
               "wv shl 8 3:3 8:8", "wv shl 3 1:1 3:3", "wv shl 8 3:5 9:9", "wv ashr 8 128:130 1:1",
               "wv trunc 8 15:16 4", "wv trunc 64 0:18446744073709551615 63", "wv trunc 64 5:9 63",
               "wv sext 8 100:200 8", "wv zext 8 200:100 8", "wv mul 8 100:120 2:3", "wv mul 8 250:5 250:5",
@@ -463,8 +464,6 @@ def gen_wv(seed, tier):
                 b = wv_shift_amount(rng, w)
             if op in ("shl", "lshr", "ashr") and b not in ("bot", "top") and b[0] == b[1] and b[0] >= 64:
                 b = (b[0] % 64, b[0] % 64)
-            if op == "shl" and w == 64 and b not in ("bot", "top") and b == (0, 0):
-                b = (1, 1)        # Shl(0) at width 64 calls ashr(64): undefined behaviour
             if op == "trim" and rng.random() < 0.8:
                 c = rng.choice([a[0], a[1], rng.randrange(m)]) if a not in ("bot", "top") else rng.randrange(m)
                 b = (c, c)
@@ -490,7 +489,6 @@ def gen_wv(seed, tier):
             main.append("wv %s %d %s %d" % (op, w, wv_fmt(a), min(64 - w, rng.choice([0, 1, 64 - w, rng.randint(0, 64 - w)]))))
         elif k < 0.98:
             k = rng.choice([1, w, w - 1, w // 2, rng.randint(1, w)])
-            k = min(k, 63)        # Trunc(64) calls ashr(64): undefined behaviour
             main.append("wv trunc %d %s %d" % (w, wv_fmt(a), k))
         else:
             z = rng.choice([rng.randint(I64MIN, I64MAX), rng.randint(-300, 300), 2 ** 63, -(2 ** 64)])
